@@ -464,23 +464,41 @@ class Gen:
         self.emit(head + body.strip('\n'), ('src', '%s:%d' % (rel, text.count('\n', 0, it.start) + 1)))
 
     # ---------------------------------------------------------------- R17: helpers a refactoring introduced
-    def find_helper(self, text, mask, impl, name):
-        """the definition of `name`: in the caller's impl, in any other impl of the file, or a free fn of the file"""
-        cands = []
+    def find_helper(self, rel, impl, name):
+        """the definition of `name`: in the caller's impl, else the only `fn name` of the caller's file, else the only one under src/"""
+        text, mask = self.src(rel)
         if impl != '-':
             try:
-                cands.append((impl, rsx.find_in_impl(text, mask, impl, 'fn', name)))
+                return (rel, impl, rsx.find_in_impl(text, mask, impl, 'fn', name), text, mask)
             except ExtractError:
                 pass
-        if not cands:
-            for it in rsx.items(text, mask):
-                if it.kind == 'impl':
-                    for sub in rsx.items(text, mask, it.body_open + 1, it.end - 1):
+        def scan(r):
+            t, mk = self.src(r)
+            out = []
+            for it in rsx.items(t, mk):
+                if it.kind == 'impl' and it.body_open is not None:
+                    for sub in rsx.items(t, mk, it.body_open + 1, it.end - 1):
                         if sub.kind == 'fn' and sub.name == name:
-                            cands.append((it.name, sub))
+                            out.append((r, it.name, sub, t, mk))
                 elif it.kind == 'fn' and it.name == name:
-                    cands.append(('-', it))
-        return cands[0] if len(cands) == 1 else None
+                    out.append((r, '-', it, t, mk))
+            return out
+        c = scan(rel)
+        if len(c) == 1:
+            return c[0]
+        if c:
+            return None
+        allc = []
+        for root, _d, files in os.walk(os.path.join(self.repo, 'src')):
+            for fn in sorted(files):
+                if fn.endswith('.rs'):
+                    r = os.path.relpath(os.path.join(root, fn), self.repo)
+                    if r != rel:
+                        try:
+                            allc += scan(r)
+                        except Exception:
+                            pass
+        return allc[0] if len(allc) == 1 else None
 
     def inline_helpers(self, body, rel, impl, where, depth=0):
         """R17: a call of a private helper that is not under contract (`self.h(a)`, `Self::h(a)`, `h(a)`) is replaced by the
@@ -489,7 +507,6 @@ class Gen:
         it is re-raised by a `?` at the call site (then the early exit leaves the caller with the same value)."""
         if not self.lift or depth > 3:
             return body
-        text, mask = self.src(rel)
         changed = True
         rounds = 0
         while changed and rounds < 8:
@@ -497,14 +514,17 @@ class Gen:
             rounds += 1
             bm = rsx.code_mask(body)
             for name in sorted(self.lift):
-                hits = [m for m in re.finditer(r'(?:\bself\s*\.\s*|\bSelf\s*::\s*|(?<![\w.:]))' + re.escape(name) + r'\s*\(', body) if bm[m.start()] and bm[m.end() - 1]]
+                hits = [m for m in re.finditer(r'(?:(?<![\w.)\]])(?P<recv>[A-Za-z_]\w*(?:\s*\.\s*[A-Za-z_]\w*)*)\s*\.\s*|\bSelf\s*::\s*|(?<![\w.:]))' + re.escape(name) + r'\s*\(', body) if bm[m.start()] and bm[m.end() - 1]]
                 if not hits:
                     continue
                 m = hits[-1]
-                found = self.find_helper(text, mask, impl, name)
+                found = self.find_helper(rel, impl, name)
                 if not found:
                     continue
-                himpl, it = found
+                hrel, himpl, it, text, mask = found
+                recv = m.group('recv')
+                if recv is not None:
+                    recv = re.sub(r'\s+', '', recv)
                 try:
                     attrs, sig, hbody = rsx.split_fn(text, mask, it)
                 except ExtractError:
@@ -514,8 +534,8 @@ class Gen:
                     return any(hm[x.start()] for x in re.finditer(pat, hbody))
                 if code_has(r'\breturn\b') or re.search(r'\bfn\s+' + re.escape(name) + r'\s*<', sig) or code_has(r'\b' + re.escape(name) + r'\s*\('):
                     continue
-                prefix = body[m.start():m.end()]
-                is_method = prefix.lstrip().startswith('self')
+                is_method = recv is not None
+                other_recv = is_method and recv != 'self'
                 close = rsx.match_close(body, bm, m.end() - 1)
                 args = [a.strip() for a in rsx.split_top_commas(body[m.end():close]) if a.strip()]
                 pm = re.search(r'\((.*)\)', sig[sig.index(name):], re.S)
@@ -527,7 +547,9 @@ class Gen:
                 has_self = bool(params) and re.match(r'^(&\s*(mut\s+)?)?(mut\s+)?self$', params[0].replace("'_ ", ''))
                 if has_self:
                     if not is_method or re.match(r'^(mut\s+)?self$', params[0]):
-                        continue        # by-value self or a call through another receiver: not handled
+                        continue        # by-value self: not handled
+                    if other_recv and (not re.match(r'^&\s*self$', params[0].replace("'_ ", '')) or code_has(r'\bSelf\b')):
+                        continue        # through another receiver only `&self` helpers that do not name `Self`
                     params = params[1:]
                 elif is_method:
                     continue
@@ -547,8 +569,21 @@ class Gen:
                     after = body[close + 1:close + 8].lstrip()
                     if not after.startswith('?'):
                         continue
-                inner = self.inline_helpers(hbody, rel, himpl, where, depth + 1) if depth < 3 else hbody
-                block = '{ ' + ' '.join('let verif_arg%d: %s = %s;' % (k, t, a) for k, (mu, pn, t, a) in enumerate(binds)) + ' ' + \
+                inner = self.inline_helpers(hbody, hrel, himpl, where, depth + 1) if depth < 3 else hbody
+                recv_bind = ''
+                if other_recv:
+                    im = rsx.code_mask(inner)
+                    parts = []
+                    last = 0
+                    for x in re.finditer(r'\bself\b', inner):
+                        if im[x.start()]:
+                            parts.append(inner[last:x.start()])
+                            parts.append('verif_recv')
+                            last = x.end()
+                    parts.append(inner[last:])
+                    inner = ''.join(parts)
+                    recv_bind = 'let verif_recv = &(%s); ' % recv
+                block = '{ ' + recv_bind + ' '.join('let verif_arg%d: %s = %s;' % (k, t, a) for k, (mu, pn, t, a) in enumerate(binds)) + ' ' + \
                     ' '.join('let %s%s: %s = verif_arg%d;' % (mu, pn, t, k) for k, (mu, pn, t, a) in enumerate(binds)) + ' ' + inner + ' }'
                 body = body[:m.start()] + block + body[close + 1:]
                 self.bump('R17.helper_inlined')
